@@ -266,16 +266,14 @@ Proof. vm_compute. reflexivity. Qed.
 
 (* the witnesses of the repaired findings F-C17b..e now behave as the specification says *)
 Example C17_repaired_witnesses :
-  (exists b, pack GT [(39, One (VInt 4294967295))] = Ok b
-             /\ unpack GT CONNECT b = Ok ([(39, One (VInt 4294967295))], blen b))
+  pack GT [(39, One (VInt 4294967295))] = Ok [5; 39; 255; 255; 255; 255]
+  /\ unpack GT CONNECT [5; 39; 255; 255; 255; 255] = Ok ([(39, One (VInt 4294967295))], 6)
   /\ setattr GT SUBSCRIBE [] (bytes_of "SubscriptionIdentifier") (Many [VInt 0]) = Raise 3
-  /\ (exists b, pack GT [(38, Many [VPair (SStr [239; 187; 191]) (SStr [120])])] = Ok b
-             /\ unpack GT PUBLISH b = Ok ([(38, Many [VPair (SStr [239; 187; 191]) (SStr [120])])], blen b))
+  /\ pack GT [(38, Many [VPair (SStr [239; 187; 191]) (SStr [120])])] = Ok [9; 38; 0; 3; 239; 187; 191; 0; 1; 120]
+  /\ unpack GT PUBLISH [9; 38; 0; 3; 239; 187; 191; 0; 1; 120]
+     = Ok ([(38, Many [VPair (SStr [239; 187; 191]) (SStr [120])])], 10)
   /\ setattr GT CONNACK [] (bytes_of "MaximumQoS") (One (VInt 2)) = Raise 3.
-Proof.
-  split; [eexists; split; vm_compute; reflexivity|]. split; [vm_compute; reflexivity|].
-  split; [eexists; split; vm_compute; reflexivity|]. vm_compute; reflexivity.
-Qed.
+Proof. repeat split; vm_compute; reflexivity. Qed.
 
 Example C17_reason_nonvacuous :
   spec_allows CONNACK 153 = true /\ rc_new GR CONNACK name_success 153 = Ok 153 /\
